@@ -29,7 +29,7 @@ theorem bitmapDefinition_bit (P : Prims) (s : St) (h : s.regs.bitmapDef = .waiti
 
 theorem xOf_bit : xOf 31031 = 31 := by decide
 
-theorem BitInv.elem {P : Prims} {V : St → List Val} (hR : Rec P V) {s s' : St} {cs : List Nat} (hi : BitInv V s cs)
+theorem BitInv.elem {P : Prims} {V : St → List Val} {X : St → Prop} (hR : Rec P V X) {s s' : St} {cs : List Nat} (hi : BitInv V s cs)
     (e : Elem) (he : e.id = 31031) (h : walk1 P (.elem e) s = .ok s') : BitInv V s' cs := by
   obtain ⟨hc, hst, hwin⟩ := hi
   rw [walk1_quiet P _ s hc.quiet.1 hc.quiet.2.1 hc.quiet.2.2] at h
@@ -75,7 +75,7 @@ theorem walkList_single (P : Prims) (d : Desc) (s : St) : walkList P [d] s = wal
   | error e => rfl
   | ok s' => simp only; rw [walkList]
 
-theorem BitInv.iter {P : Prims} {V : St → List Val} (hR : Rec P V) (e : Elem) (he : e.id = 31031) (n : Nat) :
+theorem BitInv.iter {P : Prims} {V : St → List Val} {X : St → Prop} (hR : Rec P V X) (e : Elem) (he : e.id = 31031) (n : Nat) :
     ∀ (s s' : St) (cs : List Nat), BitInv V s cs → iterN n (walkList P [.elem e]) s = .ok s' → BitInv V s' cs := by
   induction n with
   | zero => intro s s' cs hi h; unfold iterN at h; cases h; exact hi
@@ -142,7 +142,7 @@ theorem isBitRep_cases (d : Desc) (h : isBitRep d = true) :
   | _ => simp [isBitRep] at h
 
 /-- the prelude of the member that follows the operator (or 236000): the state machine waits for the first bit -/
-theorem Core.prelude_bitrep {P : Prims} {V : St → List Val} (hR : Rec P V) {s s1 : St} {cs : List Nat}
+theorem Core.prelude_bitrep {P : Prims} {V : St → List Val} {X : St → Prop} (hR : Rec P V X) {s s1 : St} {cs : List Nat}
     (hc : Core V s cs)
     (hph : s.regs.bitmapDef = .indicator ∨ (s.regs.bitmapDef = .waiting ∧ ∀ c ∈ cs, c ≤ s.regs.backBoundary))
     (id : Nat) (h1 : id ≠ 31031) (h2 : id ≠ 237000) (h : bitmapDefinition P id s = .ok s1) :
@@ -169,7 +169,7 @@ theorem Core.prelude_bitrep {P : Prims} {V : St → List Val} (hR : Rec P V) {s 
     injection h with h; subst h
     exact ⟨⟨hc, Or.inl hw, hwin⟩, hw, rfl⟩
 
-theorem Core.bitrep {P : Prims} {V : St → List Val} (hR : Rec P V) {s s' : St} {cs : List Nat} (hc : Core V s cs)
+theorem Core.bitrep {P : Prims} {V : St → List Val} {X : St → Prop} (hR : Rec P V X) {s s' : St} {cs : List Nat} (hc : Core V s cs)
     (hph : s.regs.bitmapDef = .indicator ∨ (s.regs.bitmapDef = .waiting ∧ ∀ c ∈ cs, c ≤ s.regs.backBoundary))
     (d : Desc) (hd : isBitRep d = true) (h : walk1 P d s = .ok s') :
     Core V s' cs ∧ s'.regs.bitmapDef ≠ .indicator ∧ cancels1 P d s = [] := by
@@ -220,7 +220,7 @@ theorem Core.bitrep {P : Prims} {V : St → List Val} (hR : Rec P V) {s s' : St}
 
 /-! ### the operators outside a bit-map definition -/
 
-theorem Core.operator {P : Prims} {V : St → List Val} (hR : Rec P V) {s s' : St} {cs : List Nat} (hc : Core V s cs)
+theorem Core.operator {P : Prims} {V : St → List Val} {X : St → Prop} (hR : Rec P V X) {s s' : St} {cs : List Nat} (hc : Core V s cs)
     (hst : Settled s) (id : Nat) (hok1 : okIdleOp id = true) (hnb : isBitmapOpId id = false)
     (h : operatorDescriptor P id s = .ok s') (hok : markersOk (items V s') = true) :
     Core V s' (cs ++ (if id / 1000 = 235 then [s.descs.length] else [])) ∧ Settled s' := by
